@@ -27,6 +27,36 @@ print(out)
 '''
 
 
+LARGE = r'''
+import sys, hashlib, json, io, contextlib
+sys.path.insert(0, "/verif")
+import numpy as np
+from replay import trees as T
+from phyclone.run import run_phyclone_chain
+from phyclone.tree import Tree
+data = T.make_data(14, dims=2, grid=21, seed=5)
+for dp in data:
+    dp.value[:] = dp.value * 40.0   # sharply peaked grids: the sampler keeps 12-14 clones, enough for colliding node indices in library sets
+with contextlib.redirect_stdout(io.StringIO()):
+    res = run_phyclone_chain(2, True, 1.0, data, float("inf"), ITERS, 8, 1, 1, 0.0, 100000, "semi-adapted", 0.5, np.random.default_rng(7), ["a", "b"], 1, 0, 0.3)
+sig = []
+for e in res["trace"]:
+    t = Tree.from_dict(e["tree"])
+    sig.append((e["iter"], repr(float(e["alpha"])), repr(float(e["log_p_one"])), sorted(sorted(c) for c in t.get_clades())))
+print(hashlib.sha1(json.dumps(sig).encode()).hexdigest())
+'''
+
+
+def many_clones(n_proc, iters):
+    """the same seeded chain with 12-14 clones in n_proc fresh processes: rustworkx's per-process hash state differs between them (finding F13)"""
+    procs = [subprocess.Popen([sys.executable, "-c", LARGE.replace("ITERS", str(iters))], stdout=subprocess.PIPE, stderr=subprocess.PIPE, text=True) for _ in range(n_proc)]
+    outs = []
+    for p_ in procs:
+        o, e = p_.communicate(timeout=1500)
+        outs.append(o.strip().splitlines()[-1] if o.strip() else "ERROR: " + e[-300:])
+    return outs
+
+
 def smoke(hash_seeds):
     outs = []
     for hs in hash_seeds:
@@ -71,3 +101,10 @@ def run(ctx):
     if not same:
         ctx.fail("C18.smoke.hash-seed", "traces differ across PYTHONHASHSEED values: %s" % outs, {"outputs": outs}, True)
     ctx.samples.append({"smoke": outs[0][1][:120]})
+    n_proc, iters = (6, 40) if ctx.tier == "quick" else (12, 80)
+    big = many_clones(n_proc, iters)
+    same_big = len(set(big)) == 1 and not big[0].startswith("ERROR")
+    ctx.add_bounded("one seeded chain with 12-14 clones (prune-regraft and subtree moves on) in several fresh processes", "%d processes, %d iterations, 14 data points - a test, not assurance" % (n_proc, iters),
+                    len(big), len(big), same_big)
+    if not same_big:
+        ctx.fail("C18.smoke.process-state", "the same seeded chain gives different traces in different processes: %s" % sorted(set(big)), {"outputs": big}, True)
